@@ -10,3 +10,5 @@ import Dasp.Props.C04
 import Dasp.Props.C05
 import Dasp.Props.C16
 import Dasp.Props.C17
+import Dasp.Props.C11
+import Dasp.Props.C19
